@@ -5,6 +5,7 @@
 //! that draws from the PRNG; execution is a pure function of the scenario (and the code under
 //! test), so the scenario *is* the replay file and the shrinker edits it directly.
 
+pub mod kproto;
 pub mod rng;
 
 use std::collections::{BTreeMap, BTreeSet, HashSet};
